@@ -273,6 +273,16 @@ sLUMemInit(fact_t fact, void *work, int_t lwork, int m, int n, int_t annz,
 	    nzlmax /= 2;
 	    if ( nzlumax < annz ) {
 		printf("Not enough memory to perform factorization.\n");
+		/* Nothing is handed to the caller: release what this call obtained. */
+		if ( Glu->MemModel == SYSTEM ) {
+		    SUPERLU_FREE(xsup);
+		    SUPERLU_FREE(supno);
+		    SUPERLU_FREE(xlsub);
+		    SUPERLU_FREE(xlusup);
+		    SUPERLU_FREE(xusub);
+		}
+		SUPERLU_FREE(Glu->expanders);
+		Glu->expanders = NULL;
 		return (smemory_usage(nzlmax, nzumax, nzlumax, n) + n);
 	    }
 #if ( PRNTlevel >= 1)
@@ -336,8 +346,24 @@ sLUMemInit(fact_t fact, void *work, int_t lwork, int m, int n, int_t annz,
     Glu->nzlumax = nzlumax;
     
     info = sLUWorkInit(m, n, panel_size, iwork, dwork, Glu);
-    if ( info )
+    if ( info ) {
+	/* Nothing is handed to the caller: release what this call obtained
+	   (with SamePattern_SameRowPerm the L\U arrays are the caller's). */
+	if ( Glu->MemModel == SYSTEM && fact != SamePattern_SameRowPerm ) {
+	    SUPERLU_FREE(xsup);
+	    SUPERLU_FREE(supno);
+	    SUPERLU_FREE(xlsub);
+	    SUPERLU_FREE(xlusup);
+	    SUPERLU_FREE(xusub);
+	    SUPERLU_FREE(lusup);
+	    SUPERLU_FREE(ucol);
+	    SUPERLU_FREE(lsub);
+	    SUPERLU_FREE(usub);
+	}
+	SUPERLU_FREE(Glu->expanders);
+	Glu->expanders = NULL;
 	return ( info + smemory_usage(nzlmax, nzumax, nzlumax, n) + n);
+    }
     
     ++Glu->num_expansions;
     return 0;
@@ -390,6 +416,7 @@ sLUWorkInit(int m, int n, int panel_size, int **iworkptr,
     }
     if ( ! *dworkptr ) {
 	fprintf(stderr, "malloc fails for local dworkptr[].");
+	if ( Glu->MemModel == SYSTEM ) SUPERLU_FREE(*iworkptr);
 	return (isize + dsize + n);
     }
 	
